@@ -478,6 +478,71 @@ class DocFJob:
         return True, site, sym
 
 
+class CallFJob:
+    """one call on a value object (prepared by `prep`), with the k-th allocation failing; then a dump of the object (it must
+    stay valid) and the repetition of the call"""
+
+    def __init__(self, name, prep, call):
+        self.name, self.prep, self.call = name, prep, call
+        self.n, self.ks = 0, []
+
+    def opname(self):
+        return "%s.%s" % (self.call["op"], self.call.get("f", ""))
+
+    def base_rc(self):
+        return self._rc0
+
+    def describe(self):
+        return "%s: %s" % (self.name, json.dumps(self.call, sort_keys=True)[:200])
+
+    def iteration(self, k, kinds=7):
+        c = [{"op": "reset"}] + self.prep + [dict(self.call, fail_at=k, fail_kinds=kinds)]
+        it = len(c) - 1
+        c.append({"op": "value_dump", "v": self.call["v"]})
+        ir = None
+        if k > 0:
+            c.append(dict(self.call, if_fired=1)); ir = len(c) - 1
+            c.append({"op": "value_dump", "v": self.call["v"]})
+        return c, it, ir
+
+    def learn(self, outs, it):
+        self._rc0 = outs[it].get("rc")
+        self.base = outs[it + 1].get("val")
+
+    def judge(self, k, outs, it, ir):
+        o = outs[it]
+        if not o.get("fired"):
+            return False, "", []
+        site = "%s:%s" % (o.get("akind"), re.sub(r":\d+$", "", o.get("site", "") or "?"))
+        rc, sym = o.get("rc"), []
+        if rc == self._rc0 and outs[it + 1].get("val") == self.base:
+            return True, site, ["~tolerated"]
+        if rc not in FAULT_RCS:
+            sym.append("rc=%s" % rc)
+        if ir is not None:
+            r = outs[ir]
+            if r.get("rc") != self._rc0 or outs[ir + 1].get("val") != self.base:
+                sym.append("retry: differs from the fault-free call (rc=%s)" % r.get("rc"))
+        return True, site, sym
+
+
+def call_jobs(tier):
+    """value calls outside CifValue.tla's action set: number (re)initialisation and the coercions that allocate"""
+    from check_numb import hex_of
+    mk = [{"op": "value_create", "v": "x", "kind": 5}]
+    num = lambda d, su: {"val": hex_of(d), "su": hex_of(su)}
+    jobs = [CallFJob("autoinit", mk, dict({"op": "value_op", "v": "x", "f": "autoinit_numb", "rule": 19}, **num(1.2345, 0.012))),
+            CallFJob("autoinit exact", mk, dict({"op": "value_op", "v": "x", "f": "autoinit_numb", "rule": 9}, **num(-250.0, 0.0))),
+            CallFJob("init", mk, dict({"op": "value_op", "v": "x", "f": "init_numb", "scale": 3, "mlz": 5}, **num(0.00123, 0.0002))),
+            CallFJob("init sci", mk, dict({"op": "value_op", "v": "x", "f": "init_numb", "scale": -2, "mlz": 0}, **num(123456.0, 300.0))),
+            CallFJob("get_number of a string", [{"op": "value_build", "v": "x", "val": {"k": "char", "t": "1.50(3)", "q": 0}}], {"op": "value_op", "v": "x", "f": "get_number"}),
+            CallFJob("get_su of a string", [{"op": "value_build", "v": "x", "val": {"k": "char", "t": "-2.5e3(12)", "q": 1}}], {"op": "value_op", "v": "x", "f": "get_su"}),
+            CallFJob("get_text", [{"op": "value_build", "v": "x", "val": {"k": "numb", "t": "1.50(3)"}}], {"op": "value_op", "v": "x", "f": "get_text"}),
+            CallFJob("set_quoted of a placeholder", [{"op": "value_create", "v": "x", "kind": 4}], {"op": "value_op", "v": "x", "f": "set_quoted", "q": 1}),
+            CallFJob("init_char", mk, {"op": "value_op", "v": "x", "f": "init_char", "text": "some text"})]
+    return jobs
+
+
 def doc_jobs(tier):
     # the library's own requests are few enough to be failed one by one; SQLite's and ICU's (thousands per document) are
     # sampled up to the tier's bound
@@ -494,6 +559,7 @@ def c17(tier, replay=None):
     jobs += vjobs
     covs += vcovs
     jobs += doc_jobs(tier)
+    pass  # CALLJOBS_PLACEHOLDER
     maxk = 160 if tier == "quick" else 500
     results = pmap(run_fjob, [(binary, j, maxk, SEED + i) for i, j in enumerate(jobs)])
     tot = collections.Counter()
